@@ -47,6 +47,17 @@ omit [Zero α] in
 @[simp] theorem mkMat_length (n k : Nat) (f : Nat → Nat → α) : (mkMat n k f).length = n := by
   simp [mkMat]
 
+omit [Zero α] in
+theorem tab_congr {n : Nat} {f g : Nat → α} (h : ∀ i, i < n → f i = g i) : tab n f = tab n g := by
+  unfold tab
+  exact List.map_congr_left fun i hi => h i (List.mem_range.mp hi)
+
+omit [Zero α] in
+theorem mkMat_congr {n k : Nat} {f g : Nat → Nat → α} (h : ∀ i, i < n → ∀ c, c < k → f i c = g i c) :
+    mkMat n k f = mkMat n k g := by
+  unfold mkMat
+  exact tab_congr fun i hi => tab_congr fun c hc => h i hi c hc
+
 end get
 
 /-! ### `sumN` is a `Finset.range` sum -/
@@ -69,6 +80,11 @@ theorem sumN_congr {n : Nat} {f g : Nat → α} (h : ∀ i, i < n → f i = g i)
   subst hnm; exact sumN_congr h
 
 end sum
+
+/-- the same for `Σ over Finset.range` (tried before `Finset.sum_congr`, which gives `i ∈ range n`) -/
+@[congr] theorem sum_range_congr' {α : Type} [AddCommMonoid α] {n m : Nat} {f g : Nat → α} (hnm : n = m)
+    (h : ∀ i, i < m → f i = g i) : ∑ i ∈ range n, f i = ∑ i ∈ range m, g i := by
+  subst hnm; exact Finset.sum_congr rfl fun i hi => h i (Finset.mem_range.mp hi)
 
 /-! ### the pseudo-inverse -/
 
